@@ -78,6 +78,9 @@ class State:
         self.edge_unidx = False
         self.uncommitted = False
         self.reopens = 0
+        self.kept = 0          # RK transitions so far (a stored copy exists that the live object did not come from)
+        self.live_reopened = False   # the live object is itself a reopened map
+        self.stored = None     # fingerprint of what the stored copy held when it was last written / opened
 
 
 def enabled(root, st):
@@ -107,6 +110,8 @@ def enabled(root, st):
         # queries, before and after), so reopening is explored there as well.
         if not st.uncommitted and st.reopens < 3:
             ops.append(["RO"])
+            if st.nn > 0 and st.kept == 0:
+                ops.append(["RK"])
     else:
         if st.nn < 3:
             ops.append(["an"])
@@ -116,6 +121,8 @@ def enabled(root, st):
             ops.append(["LINK"])
         if st.reopens < 3:
             ops.append(["RO"])
+            if st.nn > 0 and st.kept == 0:
+                ops.append(["RK"])
     return ops
 
 
@@ -229,11 +236,28 @@ class Runner:
                 m2 = SqliteMap.from_file(os.path.join(self.dir, self.name + ".sqlite"))
                 after = snapshot(m2, root)
                 st.reopens += 1
+                st.stored = fp(before)
+                st.live_reopened = True
                 self.reopen_checked += 1
                 d = diff(before, after)
                 if d:
                     self.viol.append((list(hist), d, {x: (before[x], after.get(x)) for x in d[:3]}))
                 return m2
+            elif k == "RK":
+                # a second handle on the stored file while the original stays open and keeps being built
+                before = snapshot(m, root)
+                m2 = SqliteMap.from_file(os.path.join(self.dir, self.name + ".sqlite"))
+                try:
+                    after = snapshot(m2, root)
+                finally:
+                    m2.db.close()
+                st.reopens += 1
+                st.stored = fp(before)
+                st.kept += 1
+                self.reopen_checked += 1
+                d = diff(before, after)
+                if d:
+                    self.viol.append((list(hist), d, {x: (before[x], after.get(x)) for x in d[:3]}))
         else:
             if k == "an":
                 lbl, loc = NODES[st.nn]
@@ -253,11 +277,26 @@ class Runner:
                 m2 = InMemMap.from_pickle(os.path.join(self.dir, self.name + ".pkl"))
                 after = snapshot(m2, root)
                 st.reopens += 1
+                st.stored = fp(before)
+                st.live_reopened = True
                 self.reopen_checked += 1
                 d = diff(before, after)
                 if d:
                     self.viol.append((list(hist), d, {x: (before[x], after.get(x)) for x in d[:3]}))
                 return m2
+            elif k == "RK":
+                # dump and open the stored copy, but keep building the ORIGINAL (the next dump overwrites the file)
+                before = snapshot(m, root)
+                m.dump()
+                m2 = InMemMap.from_pickle(os.path.join(self.dir, self.name + ".pkl"))
+                after = snapshot(m2, root)
+                st.reopens += 1
+                st.stored = fp(before)
+                st.kept += 1
+                self.reopen_checked += 1
+                d = diff(before, after)
+                if d:
+                    self.viol.append((list(hist), d, {x: (before[x], after.get(x)) for x in d[:3]}))
         return m
 
     def cleanup(self):
@@ -311,7 +350,7 @@ def run_case(case):
                 res["v"].append({"msg": f"history {h} on {root}: the reopened map differs from the original in {d}: "
                                         f"{ {k: v for k, v in ex.items()} }"[:900],
                                  "case": dict(root, prefix=h, depth=len(h), exact=True)})
-        key = fp((snap, st.nn, st.ne, st.node_unidx, st.edge_unidx, st.uncommitted, min(st.reopens, 3)))
+        key = fp((snap, st.nn, st.ne, st.node_unidx, st.edge_unidx, st.uncommitted, min(st.reopens, 3), min(st.kept, 3), st.live_reopened, st.stored))
         outs.add(fp(snap))
         if key in seen:
             continue
@@ -337,4 +376,4 @@ def run_case(case):
 def describe(case):
     return {"root": {k: case.get(k) for k in ("backend", "latlon", "crs", "labels")}, "history": case["prefix"],
             "legend": "an=add_node(no_index,no_commit) AN=add_nodes ae=add_edge(no_index,no_commit) AE=add_edges(no_index) "
-                      "RN/RE=reindex CM=commit RO=reopen LINK=set linked_edges"}
+                      "RN/RE=reindex CM=commit RO=reopen (continue on the reopened map) RK=store/open a copy and compare, continue on the original LINK=set linked_edges"}
